@@ -5,8 +5,25 @@
 #ifndef LF_JUDGE_H
 #define LF_JUDGE_H
 
-#define LF_ALARM_SECONDS 20
+/*
+ * Termination is judged on CPU time, not on wall-clock time: the watchdog is
+ * ITIMER_PROF (user + system time consumed by this process), so it does not
+ * fire because other processes hog the cores.  A load normally takes well
+ * under 10 ms of CPU.
+ */
+#define LF_WATCHDOG_CPU_SECONDS 10
 #define LF_EXIT_HANG 94
+
+#include <sys/time.h>
+
+static void lf_watchdog(int seconds)
+{
+    struct itimerval it;
+
+    memset(&it, 0, sizeof(it));
+    it.it_value.tv_sec = seconds;
+    (void)setitimer(ITIMER_PROF, &it, NULL);
+}
 
 static char hang_kind[16], hang_mut[16];
 static int hang_seed;
@@ -28,7 +45,7 @@ static void on_alarm(int sig)
 
 static void lf_install_alarm(void)
 {
-    signal(SIGALRM, on_alarm);
+    signal(SIGPROF, on_alarm);
 }
 
 /* the outcome is assembled here and written only after the loader returned,
@@ -220,10 +237,10 @@ static void judge_data(int kind, const buf_t *in, int prefill)
 	(void)LIB(vnadata_set_cell(v, 1, 1, 1, 0.5 + 0.25 * I));
     }
     vt_cb_reset();
-    alarm(LF_ALARM_SECONDS);
+    lf_watchdog(LF_WATCHDOG_CPU_SECONDS);
     rv = LIB(vnadata_load(v, path_in));
     e = errno;
-    alarm(0);
+    lf_watchdog(0);
     res_put("\"hang\":0,\"ok\":%d,\"err\":\"%s\",", rv == 0, vt_errname(e));
     res_put_cb();
     if (rv == 0) {
@@ -402,7 +419,7 @@ static void judge_yaml(int kind, const buf_t *in, int prefill)
 	(void)LIB(vnaproperty_copy(&before, root));
     }
     vt_cb_reset();
-    alarm(LF_ALARM_SECONDS);
+    lf_watchdog(LF_WATCHDOG_CPU_SECONDS);
     if (kind == K_YAMLFILE) {
 	FILE *fp;
 
@@ -423,7 +440,7 @@ static void judge_yaml(int kind, const buf_t *in, int prefill)
 		    NULL));
 	e = errno;
     }
-    alarm(0);
+    lf_watchdog(0);
     res_put("\"hang\":0,\"ok\":%d,\"err\":\"%s\",", rv == 0, vt_errname(e));
     res_put_cb();
     if (rv == 0) {
@@ -537,10 +554,10 @@ static void judge_vnacal(const buf_t *in)
     if (cf_write_file(path_in, in->p, in->n) != 0)
 	exit(3);
     vt_cb_reset();
-    alarm(LF_ALARM_SECONDS);
+    lf_watchdog(LF_WATCHDOG_CPU_SECONDS);
     v = LIB(vnacal_load(path_in, vt_errfn, NULL));
     e = errno;
-    alarm(0);
+    lf_watchdog(0);
     res_put("\"hang\":0,\"ok\":%d,\"err\":\"%s\",", v != NULL, vt_errname(e));
     res_put_cb();
     if (v != NULL) {
